@@ -121,7 +121,7 @@ impl Property for C13 {
                 .prop_map(|(chain, pts)| Case::IntAlgebra { chain, pts }),
             2 => (proptest::collection::vec(fmat(), 1..7), proptest::collection::vec((-100.0f64..100.0, -100.0f64..100.0), 1..5))
                 .prop_map(|(chain, pts)| Case::FloatAlgebra { chain, pts }),
-            3 => (prop_oneof![3 => geom_strategy(), 1 => crate::props::c19::structural_strategy()], 0u8..36, prop_oneof![dyadic(), -720.0f64..720.0], prop_oneof![dyadic(), -80.0f64..80.0], (dyadic(), dyadic()))
+            3 => (prop_oneof![3 => geom_strategy(), 1 => crate::props::c19::structural_strategy()], 0u8..36, prop_oneof![3 => dyadic(), 3 => -720.0f64..720.0, 2 => (-9i32..10).prop_map(|k| k as f64 * 90.0), 1 => (-17i32..18).prop_map(|k| k as f64 * 45.0)], prop_oneof![dyadic(), -80.0f64..80.0], (dyadic(), dyadic()))
                 .prop_map(|(g, kind, p1, p2, origin)| Case::Traits { g, kind, p1, p2, origin }),
             5 => (pair_strategy(), xf_strategy(), (-2i64..16, -2i64..16)).prop_map(|(Pair { a, b }, xf, q)| Case::Commute { a, b, xf, q }),
         ]
